@@ -59,11 +59,15 @@ package netflow9
 //@   ensures old(len(r.data)) < 4 ==> err == reader.errReader
 //@   modifies f, r.data, r.count
 
+//@ pred spec9Appended(fs []TemplateFieldSpecifier, before []TemplateFieldSpecifier, r *reader.Reader, c0 mathint) = len(fs) == len(before) + 1 && fs.off == before.off
+//@     && (forall q :: before.off <= q && q < before.off + len(before) ==> fs.arr[q] == before.arr[q])
+//@     && fs[len(before)].ElementID == be16(r.base, c0) && fs[len(before)].Length == be16(r.base, c0+2) && r.count == c0 + 4
+
 //@ func (*TemplateRecord).unmarshal
 //@   requires rdr(r)
 //@   ensures inv(r) && r.base == old(r.base) && r.count >= old(r.count)
 //@   ensures err == nil ==> r.count == old(r.count) + 4 + 4*tr.FieldCount && tr.TemplateID == be16(r.base, old(r.count)) && tr.FieldCount == be16(r.base, old(r.count)+2)
-//@   ensures err == nil ==> len(tr.FieldSpecifiers) == old(len(tr.FieldSpecifiers)) + tr.FieldCount
+//@   ensures err == nil ==> len(tr.FieldSpecifiers) == old(len(tr.FieldSpecifiers)) + tr.FieldCount && len(tr.ScopeFieldSpecifiers) == old(len(tr.ScopeFieldSpecifiers))
 //@   ensures err != nil ==> err == reader.errReader
 //@   modifies tr, r.data, r.count
 //@   loop 1
@@ -72,6 +76,7 @@ package netflow9
 //@     invariant th.TemplateID == be16(r.base, old(r.count)) && th.FieldCount == be16(r.base, old(r.count)+2)
 //@     invariant len(tr.FieldSpecifiers) == old(len(tr.FieldSpecifiers)) + (th.FieldCount - i)
 //@     invariant r.count == old(r.count) + 4 + 4*(th.FieldCount - i)
+//@     step [spec] spec9Appended(tr.FieldSpecifiers, iter(tr.FieldSpecifiers), r, iter(r.count)) && tr.ScopeFieldSpecifiers == iter(tr.ScopeFieldSpecifiers)
 //@     decreases i
 
 //@ func (*TemplateRecord).unmarshalOpts
@@ -82,10 +87,20 @@ package netflow9
 //@   modifies tr, r.data, r.count
 //@   loop 1
 //@     invariant rdr(r) && r.base == old(r.base) && tr != nil && r.count >= old(r.count) + 6 && tr.TemplateID == be16(r.base, old(r.count)) && 0 <= i
+//@     step [scope] spec9Appended(tr.ScopeFieldSpecifiers, iter(tr.ScopeFieldSpecifiers), r, iter(r.count)) && tr.FieldSpecifiers == iter(tr.FieldSpecifiers)
 //@     decreases i
 //@   loop 2
 //@     invariant rdr(r) && r.base == old(r.base) && tr != nil && r.count >= old(r.count) + 6 && tr.TemplateID == be16(r.base, old(r.count)) && 0 <= i
+//@     step [option] spec9Appended(tr.FieldSpecifiers, iter(tr.FieldSpecifiers), r, iter(r.count)) && tr.ScopeFieldSpecifiers == iter(tr.ScopeFieldSpecifiers)
 //@     decreases i
+
+// One iteration of the field loops: the field's octets are the next fs.Length octets, the element is looked up in
+// the information model under enterprise 0, and the decoded field carries the element id and the interpretation of
+// exactly those octets according to the element's type; earlier fields are kept.
+//@ pred fd9Model(fs TemplateFieldSpecifier, m ipfix.InfoElementEntry) = has(ipfix.InfoModel, mkstruct(ipfix.ElementKey, 0, fs.ElementID)) && m == ipfix.InfoModel[mkstruct(ipfix.ElementKey, 0, fs.ElementID)]
+//@ pred fd9Kept(fields []DecodedField, before []DecodedField) = len(fields) == len(before) + 1 && fields.off == before.off && (forall q :: before.off <= q && q < before.off + len(before) ==> fields.arr[q] == before.arr[q])
+//@ pred fd9Value(f DecodedField, fs TemplateFieldSpecifier, m ipfix.InfoElementEntry, r *reader.Reader, c0 mathint) = r.count == c0 + fs.Length && f.ID == m.FieldID
+//@     && f.Value == interpU(r.base.arr, r.base.off + c0, fs.Length, m.Type)
 
 //@ func (*Decoder).decodeData
 //@   requires rdr(d.reader)
@@ -97,10 +112,16 @@ package netflow9
 //@   loop 1
 //@     invariant rdr(d.reader) && d.reader.base == old(d.reader.base) && d.raddr == old(d.raddr) && d.reader.count >= old(d.reader.count) && r == d.reader
 //@     invariant 0 <= i && i <= len(tr.ScopeFieldSpecifiers) && len(fields) == i
+//@     step [model] fd9Model(tr.ScopeFieldSpecifiers[i], m)
+//@     step [kept] fd9Kept(fields, iter(fields))
+//@     step [value] fd9Value(fields[len(fields)-1], tr.ScopeFieldSpecifiers[i], m, d.reader, iter(d.reader.count))
 //@     decreases len(tr.ScopeFieldSpecifiers) - i
 //@   loop 2
 //@     invariant rdr(d.reader) && d.reader.base == old(d.reader.base) && d.raddr == old(d.raddr) && d.reader.count >= old(d.reader.count) && r == d.reader
 //@     invariant 0 <= i && i <= len(tr.FieldSpecifiers) && len(fields) == len(tr.ScopeFieldSpecifiers) + i
+//@     step [model] fd9Model(tr.FieldSpecifiers[i], m)
+//@     step [kept] fd9Kept(fields, iter(fields))
+//@     step [value] fd9Value(fields[len(fields)-1], tr.FieldSpecifiers[i], m, d.reader, iter(d.reader.count))
 //@     decreases len(tr.FieldSpecifiers) - i
 
 //@ func NewDecoder
@@ -110,6 +131,9 @@ package netflow9
 // C09: a set is either consumed wholly (count advanced by at least its declared length; exactly when
 // no record overran the set) or the error is fatal and Decode returns nil.
 //@ func (*Decoder).decodeSet
+//@   callassert insert: sameview(arg1, d.raddr) && arg0 == arg2.TemplateID
+//@   callassert insert: setHeader.FlowSetID == 0 ==> len(arg2.FieldSpecifiers) == arg2.FieldCount && len(arg2.ScopeFieldSpecifiers) == 0   // exactly the specifiers of this template record
+//@   callassert retrieve: arg0 == setHeader.FlowSetID && sameview(arg1, d.raddr)
 //@   requires rdr(d.reader) && msg != nil && wellFormed9(mem) && len(d.reader.base) <= 65535
 //@   ensures rdr(d.reader) && d.reader.base == old(d.reader.base) && d.raddr == old(d.raddr) && d.reader.count >= old(d.reader.count) && wellFormed9(mem)
 //@   ensures [hdr] err == nil || nonfatal9(err) ==> old(len(d.reader.data)) >= 4 && be16(d.reader.base, old(d.reader.count)+2) >= 4
@@ -133,6 +157,8 @@ package netflow9
 //@     invariant [kept] msg.DataSets.off == old(msg.DataSets.off) && (forall q :: msg.DataSets.off <= q && q < msg.DataSets.off + old(len(msg.DataSets)) ==> msg.DataSets.arr[q] == old(msg.DataSets.arr)[q])
 //@     invariant [nodata] setHeader.FlowSetID <= 1 || (4 <= setHeader.FlowSetID && setHeader.FlowSetID <= 255) ==> len(msg.DataSets) == old(len(msg.DataSets))
 //@     invariant [unk] setHeader.FlowSetID > 255 && !cacheHas9(old(mem), d.raddr, setHeader.FlowSetID) ==> err != nil && len(msg.DataSets) == old(len(msg.DataSets))
+//@     invariant [tpl] setHeader.FlowSetID > 255 && cacheHas9(old(mem), d.raddr, setHeader.FlowSetID) ==> tr == cacheGet9(old(mem), d.raddr, setHeader.FlowSetID)
+//@     step [record] len(msg.DataSets) == iter(len(msg.DataSets)) || (len(msg.DataSets) == iter(len(msg.DataSets)) + 1 && setHeader.FlowSetID > 1)
 //@     invariant [wf] wellFormed9(mem)
 //@     decreases len(d.reader.data) + (err == nil ? 1 : 0)
 
